@@ -2,5 +2,6 @@ SPECIFICATION Spec
 INVARIANTS
   P_C20_NoDangling
   P_C20_Exposure
+  P_C20_HelperExposure
   P_C20_NoDanglingAll
 CHECK_DEADLOCK FALSE
